@@ -9,7 +9,7 @@ import OptunaVerif.Model.Basic
     t.system_attrs["grid_id"] (and same search space)   GTrial.gridId
     _get_unvisited_grid_ids                             unvisited
     before_trial                                        beforeTrial
-    after_trial                                         afterTrial   (`none` = KeyError('grid_id'))
+    after_trial                                         afterTrial
     Study.ask (pops a WAITING trial first)              firstWaiting / runTrial
     _optimize_sequential / optimize / several calls     optimizeLoop / optimize / session
 -/
@@ -58,16 +58,17 @@ def beforeTrial (n : Nat) (ts : List GTrial) (number : Nat) (proposal : Nat) : N
     let target := if target.length = 0 then List.range n else target
     (pick target proposal, true)
 
-/-- `after_trial`; `ts` are the stored trials with the current one still RUNNING, `cur` is the
-current trial's `grid_id` attribute.  `some true` = `study.stop()`; `none` = `KeyError('grid_id')`. -/
-def afterTrial (n : Nat) (ts : List GTrial) (cur : Option Nat) : Option Bool :=
+/-- `after_trial`; `ts` are the stored trials with the current one still RUNNING, `cur` is
+`system_attrs.get("grid_id")` of the current trial (`None` for an enqueued trial, which then simply
+does not match the last target cell).  `true` = `study.stop()`. -/
+def afterTrial (n : Nat) (ts : List GTrial) (cur : Option Nat) : Bool :=
   let target := unvisited n ts
-  if target.length = 0 then some true
+  if target.length = 0 then true
   else if target.length = 1 then
     match cur with
-    | none => none
-    | some g => some (g == target.headD 0)
-  else some false
+    | none => false
+    | some g => g == target.headD 0
+  else false
 
 /-- index of the first WAITING trial (`Study.ask` pops it before creating a new trial) -/
 def firstWaiting : List GTrial → Option Nat
@@ -88,7 +89,6 @@ structure St where
   trials : List GTrial := []
   stop : Bool := false
   calls : Nat := 0
-  crashed : Bool := false
 
 /-- `_run_trial`.  The Boolean says whether an exception leaves `optimize`. -/
 def runTrial (cx : Ctx) (n : Nat) (st : St) : St × Bool :=
@@ -99,18 +99,14 @@ def runTrial (cx : Ctx) (n : Nat) (st : St) : St × Bool :=
     let cur := (st.trials[i]?).bind (·.gridId)
     let ts1 := setState st.trials i .running
     let ts2 := setState st.trials i .finished
-    match afterTrial n ts1 cur with
-    | none => ({ trials := ts2, stop := st.stop, calls := st.calls, crashed := true }, true)
-    | some s => ({ trials := ts2, stop := st.stop || s, calls := st.calls, crashed := st.crashed }, cx.raises i)
+    ({ trials := ts2, stop := st.stop || afterTrial n ts1 cur, calls := st.calls }, cx.raises i)
   | none =>
     let j := st.trials.length
     let b := beforeTrial n st.trials j (cx.ω st.calls)
     let calls := if b.2 then st.calls + 1 else st.calls
     let ts1 := st.trials ++ [⟨some b.1, .running⟩]
     let ts2 := st.trials ++ [⟨some b.1, .finished⟩]
-    match afterTrial n ts1 (some b.1) with
-    | none => ({ trials := ts2, stop := st.stop, calls := calls, crashed := true }, true)
-    | some s => ({ trials := ts2, stop := st.stop || s, calls := calls, crashed := st.crashed }, cx.raises j)
+    ({ trials := ts2, stop := st.stop || afterTrial n ts1 (some b.1), calls := calls }, cx.raises j)
 
 /-- the `while True` of `_optimize_sequential` with `n_trials = fuel` -/
 def optimizeLoop (cx : Ctx) (n : Nat) : Nat → St → St
